@@ -69,6 +69,14 @@ CHECKS = {
              "block sizes exhaustively, the real block size 100 for n in 99..250); the real prober is run on "
              "position-encoding operators for the same (n, k).",
         design="5/C08", technique="TLC model of the prober index arithmetic + exact matrix oracle + replay"),
+    "C09": dict(
+        text="TLC derives for every enumerated tree an exact spectral decomposition A = sum lam_i P_i (exact rational "
+             "spectral projectors, structurally through Kronecker, KronSum, BlockDiag, transposes, scalar multiples) "
+             "and verifies it against the denoted matrix in every state (invariant SpecInv); the expected f(A) v is "
+             "sum f(lam_i) P_i v with TLC's eigenvalues and projectors, the harness only evaluates the scalar f. Replay "
+             "applies exp, log, sqrt, isqrt, pow for 11 exponents and a user function with Auto, Eig, Eigh, Lanczos, "
+             "Arnoldi to vectors and multi-column operands, and checks sqrt twice = A and f(A) 0 = 0.",
+        design="5/C09", technique="TLC-verified exact spectral oracle over enumerated trees + spec-to-code replay"),
     "C11": dict(
         text="TLC decides exactly which enumerated trees are Hermitian positive definite (leading principal minors) "
              "resp. non-singular and provides their exact matrix; replay requires cholesky(A) lower triangular with "
